@@ -1242,6 +1242,74 @@ def run_real_listener_case(case: dict) -> Outcome:
 
 
 # ----------------------------------------------------------------------------------------------
+# ----------------------------------------------------------------------------------------------
+# layer "in-loop": lifecycle calls of the *standalone* object issued from code that runs in the server's own event-loop
+# thread (a service_init callback / a later loop callback - the situation of a request handler implementing an
+# administrative "close" command).  Only shutdown() is documented as forbidden there; server_close() "Closes the
+# server. Thread-safe.".  Whatever it does (close, or refuse with an exception), it must not deadlock the server.
+
+
+def run_in_loop_case(case: dict) -> Outcome:
+    import threading
+
+    logging.disable(logging.CRITICAL)
+    result: dict[str, Any] = {}
+    done = threading.Event()
+    holder: dict[str, Any] = {}
+
+    def on_service_init(async_server: Any) -> None:
+        loop = asyncio.get_running_loop()
+
+        def call() -> None:
+            t0 = time.monotonic()
+            try:
+                getattr(holder["srv"], case["op"])()
+                result["outcome"] = "returned"
+            except BaseException as exc:  # noqa: BLE001
+                result["outcome"] = f"raised {type(exc).__name__}"
+            result["took"] = time.monotonic() - t0
+            done.set()
+
+        loop.call_later(case["delay_ms"] / 1000.0, call)
+        scheduled.set()
+
+    scheduled = threading.Event()
+    srv = _make_standalone_server({"proto": case["proto"], "service_init_ms": 0, "loop_setup_ms": 0}, on_service_init)
+    holder["srv"] = srv
+    up = threading.Event()
+    th = threading.Thread(target=lambda: srv.serve_forever(is_up_event=up), name="c18-inloop-serve", daemon=True)
+    th.start()
+    try:
+        if not scheduled.wait(OP_WATCHDOG_S):
+            raise HarnessError("standalone server did not reach service_init")
+        if not done.wait(IN_LOOP_WATCHDOG_S + case["delay_ms"] / 1000.0):
+            raise Violation(
+                "hang",
+                f"deadlock: {case['op']}() called on the standalone server from its own event-loop thread did not return within "
+                f"{IN_LOOP_WATCHDOG_S}s (the loop thread is blocked, no client is served, every later lifecycle call hangs)",
+                op=case["op"],
+                proto=case["proto"],
+                in_loop_thread=True,
+            )
+    finally:
+        # tear-down from this thread; bounded, because a deadlocked server cannot be stopped any more
+        stopper = threading.Thread(target=lambda: (srv.shutdown(), srv.server_close()), name="c18-inloop-stop", daemon=True)
+        stopper.start()
+        stopper.join(5.0)
+        th.join(5.0)
+    if th.is_alive():
+        raise Violation("hang", f"serve_forever() did not end after {case['op']}() from the loop thread and shutdown()/server_close() from outside", op=case["op"], proto=case["proto"])
+    return Outcome(nontrivial=True, classes=(f"op-{case['op']}", result.get("outcome", "?"), case["proto"]), note=f"{result.get('outcome')} after {result.get('took', 0):.3f}s")
+
+
+IN_LOOP_WATCHDOG_S = 6.0
+
+
+@st.composite
+def st_in_loop_case(draw: st.DrawFn, tier: str) -> dict:
+    return {"proto": draw(st.sampled_from(["tcp", "udp"])), "op": "server_close", "delay_ms": draw(st.sampled_from([0, 5, 30]))}
+
+
 
 CHECK = Check(
     id="C18",
@@ -1259,6 +1327,7 @@ CHECK = Check(
         Layer("standalone", st_standalone_case, run_standalone_case, {"quick": 40, "thorough": 200}, case_timeout_s=400.0),
         Layer("restart-race", st_restart_case, run_restart_case, {"quick": 40, "thorough": 80}, case_timeout_s=400.0, shards=8),
         Layer("real-listener", st_real_listener_case, run_real_listener_case, {"quick": 600, "thorough": 4000}),
+        Layer("in-loop", st_in_loop_case, run_in_loop_case, {"quick": 6, "thorough": 12}, shards=1, case_timeout_s=60.0),
     ],
     assumptions=[
         "async layer: listeners are in-memory objects handed out by a backend subclass; everything above them (server, task groups, cancel scopes, locks) is the unmodified library on the real asyncio backend, on a virtual clock",
